@@ -14,7 +14,7 @@
 (* two chains.  A refused call (IndexError / ValueError / KeyError /       *)
 (* TypeError / assertion) changes nothing; an iterable that raises in the  *)
 (* middle of extend() leaves the items delivered so far appended (or       *)
-(* nothing: both outcomes are accepted).  A node                           *)
+(* nothing: both outcomes are accepted, see `alt` in UtilContMC).  A node  *)
 (* taken out of a chain (remove_node, pop, node.remove) is detached: both  *)
 (* its links are None and no chain reaches it.  An iteration (iter_nodes,  *)
 (* iter / reversed of a list, node.iter_next / iter_previous) is a CURSOR  *)
@@ -41,9 +41,12 @@
 (* pop() is not specified.  After the node an iteration stands on has      *)
 (* been taken out, or its list has been cleared / re-initialised, the      *)
 (* iteration is void (never resumed); the nodes a list held when it was    *)
-(* cleared are not used any more.  Iteration of an OrderedSet during   *)
-(* mutation is not specified.  Plain str that are not lower-case are not   *)
-(* mixed with _CaseInsensitiveString in one set / dict.                    *)
+(* cleared are not used any more.  Iteration of an OrderedSet during       *)
+(* mutation is not specified, nor is order_before / order_after of an      *)
+(* ABSENT item relative to itself (ValueError or KeyError).  Plain str     *)
+(* that are not lower-case are not mixed with _CaseInsensitiveString in    *)
+(* one set / dict; hash() is only specified to agree where two objects     *)
+(* are the same dict key.                                                  *)
 (*                                                                         *)
 (* MODEL.  One record `st`:                                                *)
 (*   lst[l]  the node sequence of list l (node ids are positive integers)  *)
@@ -54,7 +57,12 @@
 (*           kinds fn / bn (nodes forward / backward), fv / bv (values)    *)
 (*   os[s]   the item sequence of ordered set s; an item is [n, s, k]:     *)
 (*           n = lower-case class (a rank), s = spelling, k = "I" (a       *)
-(*           _CaseInsensitiveString), "P" (plain hashable), "U" unhashable *)
+(*           _CaseInsensitiveString), "P" (plain hashable), "U" a key that *)
+(*           cannot be hashed: s = "C" unhashable (TypeError), "B1" / "B2" *)
+(*           a caller-supplied key whose __hash__ raises the caller's      *)
+(*           exception at its first / second call (notes/SIZE_STRESS.md    *)
+(*           part 5; B2 passes the membership test of add() and fails in   *)
+(*           the table assignment: the roll-back path of OrderedSet.add)   *)
 (* and ONE pure operator UCall(st, fl, c) = [st |-> state after, r |->     *)
 (* result] with one branch per public call (c.op).  It serves the closed   *)
 (* model (UtilContMC), the emission of EDGE lines that the harness replays *)
@@ -159,16 +167,19 @@ SortByKey(q) == LET ns == {q[i].n : i \in 1..Len(q)}
                     order == SetToSortSeq(ns, LAMBDA u, w : u < w)
                 IN FoldLeft(LAMBDA acc, n : acc \o SelectSeq(q, LAMBDA it : it.n = n), <<>>, order)
 
+\* keys that cannot be hashed: the error they cause, and whether already the first hash() fails
+UErr(a)     == [t |-> "err", x |-> IF a.s = "C" THEN "TypeError" ELSE "Boom"]
+Fails1(a)   == a.k = "U" /\ a.s # "B2"
 OHas(q, a)  == \E i \in 1..Len(q) : Match(q[i], a)
 OIdx(q, a)  == CHOOSE i \in 1..Len(q) : Match(q[i], a)
 ORm(q, a)   == SelectSeq(q, LAMBDA it : ~Match(it, a))
 OUnique(q)  == \A i, j \in 1..Len(q) : Match(q[i], q[j]) => i = j
-\* add() one after the other; stops at the first unhashable item: [q |-> items so far, ok]
+\* add() one after the other; stops at the first item that cannot be hashed: [q |-> items so far, ok, e |-> that item]
 OAddAll(q, as) == FoldLeft(LAMBDA acc, it : IF ~acc.ok THEN acc
-                                            ELSE IF it.k = "U" THEN [q |-> acc.q, ok |-> FALSE]
+                                            ELSE IF it.k = "U" THEN [q |-> acc.q, ok |-> FALSE, e |-> it]
                                             ELSE IF OHas(acc.q, it) THEN acc
-                                            ELSE [q |-> Append(acc.q, it), ok |-> TRUE],
-                           [q |-> q, ok |-> TRUE], as)
+                                            ELSE [q |-> Append(acc.q, it), ok |-> TRUE, e |-> acc.e],
+                           [q |-> q, ok |-> TRUE, e |-> NoItem], as)
 
 ----------------------------------------------------------------------------
 \* ---- node level
@@ -205,7 +216,9 @@ UNIns(st, c) == LET s == FreeChain(st, c.x)
 UDetach(st, l, x) == [st EXCEPT !.lst[l] = Without(@, x), !.ch = @ \cup {<<x>>}, !.its = VoidIts(@, {x})]
 UNewOK(st, l)   == (l \in Lists(st) /\ st.lst[l] = <<>>) \/ l = Len(st.lst) + 1
 PutList(st, l, s) == IF l \in Lists(st) THEN [st EXCEPT !.lst[l] = s] ELSE [st EXCEPT !.lst = Append(@, s)]
-ULNew(st, c)    == Out([PutList(st, c.l, c.f) EXCEPT !.val = SetVs(@, c.f, c.vs)], ROk)
+\* LinkedList(values); c.k = "boom": the iterable raises after delivering c.vs -- no object comes into being
+ULNew(st, c)    == IF c.k = "boom" THEN Out(st, Err("Boom"))
+                   ELSE Out([PutList(st, c.l, c.f) EXCEPT !.val = SetVs(@, c.f, c.vs)], ROk)
 ULPop(st, c)    == LET s == st.lst[c.l] IN
                    IF s = <<>> THEN Out(st, Err("IndexError")) ELSE Out(UDetach(st, c.l, s[Len(s)]), ROk)
 ULRemoveOK(st, c) == st.lst[c.l] = <<>> \/ c.x \in ToSet(st.lst[c.l])
@@ -262,27 +275,30 @@ UItNext(st, c) == LET it == st.its[c.i]
 Sets(st)        == DOMAIN st.os
 UONewOK(st, s)  == (s \in Sets(st) /\ st.os[s] = <<>>) \/ s = Len(st.os) + 1
 PutSet(st, s, q) == IF s \in Sets(st) THEN [st EXCEPT !.os[s] = q] ELSE [st EXCEPT !.os = Append(@, q)]
+\* OrderedSet(iterable) / extend(iterable); c.k = "boom": the iterable raises after delivering c.as
 UONew(st, c)    == LET o == OAddAll(<<>>, c.as) IN
-                   IF o.ok THEN Out(PutSet(st, c.l, o.q), ROk) ELSE Out(st, Err("TypeError"))
+                   IF ~o.ok THEN Out(st, UErr(o.e))
+                   ELSE IF c.k = "boom" THEN Out(st, Err("Boom"))
+                   ELSE Out(PutSet(st, c.l, o.q), ROk)
 UOAdd(st, c)    == LET q == st.os[c.l] IN
-                   IF c.a.k = "U" THEN Out(st, Err("TypeError"))
+                   IF c.a.k = "U" THEN Out(st, UErr(c.a))
                    ELSE IF OHas(q, c.a) THEN Out(st, ROk) ELSE Out([st EXCEPT !.os[c.l] = Append(q, c.a)], ROk)
 UORemove(st, c) == LET q == st.os[c.l] IN
-                   IF c.a.k = "U" THEN Out(st, Err("TypeError"))
+                   IF Fails1(c.a) THEN Out(st, UErr(c.a))
                    ELSE IF ~OHas(q, c.a) THEN Out(st, Err("KeyError")) ELSE Out([st EXCEPT !.os[c.l] = ORm(q, c.a)], ROk)
 UOExtend(st, c) == LET o == OAddAll(st.os[c.l], c.as) IN
-                   Out([st EXCEPT !.os[c.l] = o.q], IF o.ok THEN ROk ELSE Err("TypeError"))
-UOHas(st, c)    == IF c.a.k = "U" THEN Out(st, Err("TypeError")) ELSE Out(st, RBool(OHas(st.os[c.l], c.a)))
+                   Out([st EXCEPT !.os[c.l] = o.q], IF ~o.ok THEN UErr(o.e) ELSE IF c.k = "boom" THEN Err("Boom") ELSE ROk)
+UOHas(st, c)    == IF Fails1(c.a) THEN Out(st, UErr(c.a)) ELSE Out(st, RBool(OHas(st.os[c.l], c.a)))
 UOEnd(st, c)    == LET q == st.os[c.l] IN
-                   IF c.a.k = "U" THEN Out(st, Err("TypeError"))
+                   IF Fails1(c.a) THEN Out(st, UErr(c.a))
                    ELSE IF ~OHas(q, c.a) THEN Out(st, Err("KeyError"))
                    ELSE LET it == q[OIdx(q, c.a)] r == ORm(q, c.a) IN
                         Out([st EXCEPT !.os[c.l] = IF c.op = "ofirst" THEN <<it>> \o r ELSE Append(r, it)], ROk)
 UORel(st, c)    == LET q == st.os[c.l] IN
                    IF SEq(c.a, c.b) THEN Out(st, Err("ValueError"))
-                   ELSE IF c.b.k = "U" THEN Out(st, Err("TypeError"))
+                   ELSE IF Fails1(c.b) THEN Out(st, UErr(c.b))
                    ELSE IF ~OHas(q, c.b) THEN Out(st, Err("KeyError"))
-                   ELSE IF c.a.k = "U" THEN Out(st, Err("TypeError"))
+                   ELSE IF Fails1(c.a) THEN Out(st, UErr(c.a))
                    ELSE IF ~OHas(q, c.a) THEN Out(st, Err("KeyError"))
                    ELSE LET it == q[OIdx(q, c.a)]
                             r  == ORm(q, c.a)
@@ -303,7 +319,7 @@ InDomain(st, c) ==
       [] c.op = "nremove"   -> IsFree(st, c.x)
       [] c.op = "nlink"     -> ULinkOK(st, c)
       [] c.op \in {"ninsbefore", "ninsafter"} -> UNInsOK(st, c)
-      [] c.op = "lnew"      -> UNewOK(st, c.l) /\ FreshOK(st, c.f, Len(c.vs))
+      [] c.op = "lnew"      -> UNewOK(st, c.l) /\ FreshOK(st, c.f, Len(c.vs))        \* (c.k = "boom": the ids stay unused)
       [] c.op \in {"lbool", "llen", "lhead", "ltailnode", "ltail", "lnodes", "lvalues", "lrev", "lgetstate",
                    "lpop", "lclear"} -> c.l \in Lists(st)
       [] c.op = "lremove"   -> c.l \in Lists(st) /\ c.x \in Live(st) /\ ULRemoveOK(st, c)
